@@ -368,6 +368,45 @@ fn check_stream_len(version: Version, stream_len: u64) -> io::Result<()> {
     Ok(())
 }
 
+/// The chain that a stream no longer uses once it has moved to another one
+/// (or has become empty).
+enum OldChain {
+    Mini(u32),
+    Regular(u32),
+}
+
+/// Records a stream's chain and length in its directory entry.  If the stream
+/// has left its old chain (`replaced`), that chain is only freed once the
+/// entry has been written, and the entry is left as it was if it cannot be:
+/// until then the old chain is intact and still belongs to the stream, so a
+/// failure on the way loses nothing and the call can simply be repeated,
+/// whereas a chain freed earlier may have been given to another stream by the
+/// time the caller tries again.
+fn commit_stream_chain<F: Read + Write + Seek>(
+    minialloc: &mut MiniAllocator<F>,
+    stream_id: u32,
+    new_start_sector: u32,
+    new_stream_len: u64,
+    replaced: Option<OldChain>,
+) -> io::Result<()> {
+    match replaced {
+        None => minialloc.with_dir_entry_mut(stream_id, |dir_entry| {
+            dir_entry.start_sector = new_start_sector;
+            dir_entry.stream_len = new_stream_len;
+        }),
+        Some(old_chain) => {
+            minialloc.try_with_dir_entry_mut(stream_id, |dir_entry| {
+                dir_entry.start_sector = new_start_sector;
+                dir_entry.stream_len = new_stream_len;
+            })?;
+            match old_chain {
+                OldChain::Mini(start) => minialloc.free_mini_chain(start),
+                OldChain::Regular(start) => minialloc.free_chain(start),
+            }
+        }
+    }
+}
+
 fn write_data_to_stream<F: Read + Write + Seek>(
     minialloc: &mut MiniAllocator<F>,
     stream_id: u32,
@@ -393,6 +432,7 @@ fn write_data_to_stream<F: Read + Write + Seek>(
     if new_stream_len > old_stream_len {
         check_stream_len(minialloc.version(), new_stream_len)?;
     }
+    let mut replaced = None;
     let new_start_sector = if old_start_sector == consts::END_OF_CHAIN {
         // Case 1: The stream has no existing chain.  The stream is empty, and
         // we are writing at the start.
@@ -438,7 +478,7 @@ fn write_data_to_stream<F: Read + Write + Seek>(
             let mut tmp = vec![0u8; buf_offset_from_start as usize];
             let mut chain = minialloc.open_mini_chain(old_start_sector)?;
             chain.read_exact(&mut tmp)?;
-            chain.free()?;
+            replaced = Some(OldChain::Mini(old_start_sector));
             let mut chain = minialloc
                 .open_chain(consts::END_OF_CHAIN, SectorInit::Zero)?;
             chain.write_all(&tmp)?;
@@ -457,11 +497,13 @@ fn write_data_to_stream<F: Read + Write + Seek>(
         debug_assert_eq!(chain.start_sector_id(), old_start_sector);
         old_start_sector
     };
-    // Update the directory entry for this stream.
-    minialloc.with_dir_entry_mut(stream_id, |dir_entry| {
-        dir_entry.start_sector = new_start_sector;
-        dir_entry.stream_len = new_stream_len;
-    })
+    commit_stream_chain(
+        minialloc,
+        stream_id,
+        new_start_sector,
+        new_stream_len,
+        replaced,
+    )
 }
 
 fn write_zeros<W: Write>(writer: &mut W, len: u64) -> io::Result<()> {
@@ -484,6 +526,7 @@ fn resize_stream<F: Read + Write + Seek>(
     };
     // Refuse lengths that no chain can have before touching anything.
     check_stream_len(minialloc.version(), new_stream_len)?;
+    let mut replaced = None;
     let new_start_sector = if old_start_sector == consts::END_OF_CHAIN {
         // Case 1: The stream has no existing chain.  We will allocate a new
         // chain that is all zeroes.
@@ -514,7 +557,7 @@ fn resize_stream<F: Read + Write + Seek>(
         // Case 2: The stream currently exists in a mini chain.
         if new_stream_len == 0 {
             // Case 2a: The new length is zero.  Free the existing mini chain.
-            minialloc.free_mini_chain(old_start_sector)?;
+            replaced = Some(OldChain::Mini(old_start_sector));
             consts::END_OF_CHAIN
         } else if new_stream_len < consts::MINI_STREAM_CUTOFF as u64 {
             // Case 2b: The new length is still small enough to fit in a mini
@@ -537,7 +580,7 @@ fn resize_stream<F: Read + Write + Seek>(
             let mut tmp = vec![0u8; old_stream_len as usize];
             let mut chain = minialloc.open_mini_chain(old_start_sector)?;
             chain.read_exact(&mut tmp)?;
-            chain.free()?;
+            replaced = Some(OldChain::Mini(old_start_sector));
             let mut chain = minialloc
                 .open_chain(consts::END_OF_CHAIN, SectorInit::Zero)?;
             chain.write_all(&tmp)?;
@@ -548,7 +591,7 @@ fn resize_stream<F: Read + Write + Seek>(
         // Case 3: The stream currently exists in a regular chain.
         if new_stream_len == 0 {
             // Case 3a: The new length is zero.  Free the existing chain.
-            minialloc.free_chain(old_start_sector)?;
+            replaced = Some(OldChain::Regular(old_start_sector));
             consts::END_OF_CHAIN
         } else if new_stream_len < consts::MINI_STREAM_CUTOFF as u64 {
             // Case 3b: The new length is small enough to fit in a mini chain.
@@ -558,7 +601,7 @@ fn resize_stream<F: Read + Write + Seek>(
             let mut chain =
                 minialloc.open_chain(old_start_sector, SectorInit::Zero)?;
             chain.read_exact(&mut tmp)?;
-            chain.free()?;
+            replaced = Some(OldChain::Regular(old_start_sector));
             let mut chain = minialloc.open_mini_chain(consts::END_OF_CHAIN)?;
             chain.write_all(&tmp)?;
             chain.start_sector_id()
@@ -584,11 +627,13 @@ fn resize_stream<F: Read + Write + Seek>(
             old_start_sector
         }
     };
-    // Update the directory entry for this stream.
-    minialloc.with_dir_entry_mut(stream_id, |dir_entry| {
-        dir_entry.start_sector = new_start_sector;
-        dir_entry.stream_len = new_stream_len;
-    })
+    commit_stream_chain(
+        minialloc,
+        stream_id,
+        new_start_sector,
+        new_stream_len,
+        replaced,
+    )
 }
 
 //===========================================================================//
